@@ -1,4 +1,4 @@
-import GoProbeModel.Base.Wire
+import GoProbeModel.Base.DriverLoop
 import GoProbeModel.Spec.C13
 
 /-!
@@ -6,29 +6,6 @@ import GoProbeModel.Spec.C13
 prints `holds[:note]` or `violates:<reason>`. Imports only `Spec/*` (never `Gen/*` or `Model/*`),
 so it stays buildable when a change to /repo breaks the regenerated model.
 -/
-def judges : List (String × (List String → String → String)) := [
+def main : IO Unit := DriverLoop.runJudge [
   ("C13", C13.judge)
 ]
-
-def splitJudge (fs : List String) : List String × String :=
-  let (a, b) := fs.span (· ≠ "=>")
-  (a, " ".intercalate (b.drop 1))
-
-def dispatch (line : String) : String :=
-  match Wire.fields line with
-  | [] => ""
-  | c :: rest =>
-    match judges.find? (·.1 == c) with
-    | some (_, j) => let (args, out) := splitJudge rest; j args out
-    | none => "bad-component:" ++ c
-
-partial def loop (h : IO.FS.Stream) (out : IO.FS.Stream) : IO Unit := do
-  let line ← h.getLine
-  if line.isEmpty then return ()
-  out.putStrLn (dispatch line.trimAscii.toString)
-  loop h out
-
-def main : IO Unit := do
-  let out ← IO.getStdout
-  loop (← IO.getStdin) out
-  out.flush
